@@ -976,3 +976,135 @@ def optional_truthiness(check: Check, repo: Repo, modules: list[str], rule: str 
                         isinstance(l, ast.Name) and l.id in str_attrs):
                     n += 1
                     check.ob(rule, node, f"`{unparse(node)}` in {qualname_of(node)}", True, "explicit None test")
+
+
+# -- document order: keys table / parser / printer ------------------------------
+
+
+def _ordered_fields(e: ast.AST, pname: str, local_order: dict[str, list[str]]) -> list[str]:
+    """Fields of `pname` in left-to-right evaluation order of e, locals expanded."""
+    out: list[str] = []
+
+    def rec(n: ast.AST) -> None:
+        if isinstance(n, ast.Attribute) and isinstance(n.value, ast.Name) and n.value.id == pname:
+            if n.attr not in out:
+                out.append(n.attr)
+            return
+        if isinstance(n, ast.Name) and n.id in local_order:
+            for f in local_order[n.id]:
+                if f not in out:
+                    out.append(f)
+            return
+        if isinstance(n, ast.IfExp):
+            # text order is that of the arms; the test only selects
+            rec(n.body)
+            rec(n.orelse)
+            rec(n.test)
+            return
+        for c in ast.iter_child_nodes(n):
+            rec(c)
+
+    rec(e)
+    return out
+
+
+def printer_field_order(m: ast.AST, pname: str) -> list[list[str]]:
+    """One field order per return statement of a leave_<kind> method."""
+    local_order: dict[str, list[str]] = {}
+    for n in walk_body(m):
+        if isinstance(n, ast.Assign) and len(n.targets) == 1 and isinstance(n.targets[0], ast.Name):
+            local_order[n.targets[0].id] = _ordered_fields(n.value, pname, local_order)
+    return [_ordered_fields(r.value, pname, local_order) for r in walk_body(m) if isinstance(r, ast.Return) and r.value is not None]
+
+
+def _consumes(e: ast.AST) -> bool:
+    return any(
+        isinstance(c, ast.Call) and isinstance(c.func, ast.Attribute) and isinstance(c.func.value, ast.Name) and c.func.value.id == "self"
+        and c.func.attr != "loc"
+        for c in ast.walk(e)
+    )
+
+
+def parser_field_order(call: ast.Call) -> list[str] | None:
+    """Fields of an XNode(...) construction in the order the parser consumes their tokens."""
+    fn = enclosing_function(call)
+    if fn is None:
+        return None
+    pos: dict[str, tuple[int, int]] = {}
+    for k in call.keywords:
+        if k.arg is None or k.arg == "loc":
+            continue
+        v = k.value
+        if isinstance(v, ast.Name):
+            defs = [
+                s for s in walk_body(fn)
+                if isinstance(s, (ast.Assign, ast.AnnAssign)) and s.value is not None and s.lineno < call.lineno
+                and any(isinstance(t, ast.Name) and t.id == v.id for t in (s.targets if isinstance(s, ast.Assign) else [s.target]))
+                and _consumes(s.value)
+            ]
+            if not defs:
+                continue
+            first = min(defs, key=lambda s: (s.lineno, s.col_offset))
+            pos[k.arg] = (first.value.lineno, first.value.col_offset)
+        elif _consumes(v):
+            pos[k.arg] = (v.lineno, v.col_offset)
+    return sorted(pos, key=lambda f: pos[f])
+
+
+def _order_conflicts(a: list[str], b: list[str]) -> list[tuple[str, str]]:
+    common = [f for f in a if f in b]
+    out = []
+    for i, x in enumerate(common):
+        for y in common[i + 1:]:
+            if b.index(x) > b.index(y):
+                out.append((x, y))
+    return out
+
+
+def order_agree(check: Check, repo: Repo, model: AstModel, rule: str = "ORDER-AGREE", sides: tuple[str, ...] = ("keys", "printer"), floor: int = 25) -> None:
+    check.rule(
+        rule,
+        "document order is one order: for every node kind the order in which parser.py consumes the "
+        "fields of X (position of the consuming self.parse_*/expect_* expression bound to each keyword "
+        "of the XNode(...) construction) agrees pairwise with (a) the order of QUERY_DOCUMENT_KEYS[kind], "
+        "which is the order visit() walks the children in, and (b) the left-to-right order in which "
+        "PrintAstVisitor.leave_<kind> places the fields in the printed text",
+    )
+    table = module_const(repo, "language.ast", "QUERY_DOCUMENT_KEYS")
+    tnode = repo.mod("language.ast").toplevel_assign("QUERY_DOCUMENT_KEYS")
+    pcls = repo.cls("language.printer", "PrintAstVisitor")
+    methods = {s.name: s for s in pcls.body if isinstance(s, (ast.FunctionDef, ast.AsyncFunctionDef))}
+    mod = repo.mod("language.parser")
+    n = 0
+    for call in ast.walk(mod.tree):
+        if not (isinstance(call, ast.Call) and isinstance(call.func, ast.Name) and call.func.id in model.classes):
+            continue
+        c = model.classes[call.func.id]
+        if c.abstract:
+            continue
+        porder = parser_field_order(call)
+        if not porder or len(porder) < 2:
+            continue
+        kind = c.kind
+        where_ = f"{c.name}(...) in {qualname_of(call)}"
+        if "keys" in sides and kind in table:
+            bad = _order_conflicts(porder, list(table[kind]))
+            check.ob(rule, call, f"{where_} vs QUERY_DOCUMENT_KEYS[{kind!r}]", not bad,
+                     f"parser order {porder} agrees with keys {tuple(table[kind])}" if not bad else
+                     "; ".join(f"parser consumes `{x}` before `{y}` but the keys table visits `{y}` first" for x, y in bad))
+            n += 1
+        m = methods.get(f"leave_{kind}")
+        if "printer" in sides and m is not None:
+            params = [a.arg for a in m.args.posonlyargs + m.args.args]
+            is_static = any(unparse(d) == "staticmethod" for d in m.decorator_list)
+            pname = params[0] if is_static else (params[1] if len(params) > 1 else None)
+            if pname is None:
+                continue
+            for k, rorder in enumerate(printer_field_order(m, pname)):
+                bad = _order_conflicts(porder, rorder)
+                check.ob(rule, call, f"{where_} vs leave_{kind} return #{k + 1}", not bad,
+                         f"parser order {porder} agrees with printed order {rorder}" if not bad else
+                         "; ".join(f"parser consumes `{x}` before `{y}` but the printer emits `{y}` first" for x, y in bad))
+                n += 1
+    _ = tnode
+    check.floor(rule, floor, "parser constructions compared with the keys table / the printer")
